@@ -429,7 +429,141 @@ def tpl_string_growth(r):
     return p
 
 
-TEMPLATES = [tpl_strings_in_arrays, tpl_struct_arrays, tpl_union_payload, tpl_recursion_heap, tpl_array_ops, tpl_string_growth]
+class TextProgram:
+    """a hand-written program given as text (constructs the generator's AST has no node for); quacks like ast.Program"""
+
+    def __init__(self, text, tags):
+        self.text = text
+        self.tags = set(tags)
+
+    def files(self, printer=None):
+        return {"main.nano": self.text}
+
+
+def tpl_hashmap(r):
+    """HashMap<K,V> through the language: put / get / has / remove / size / clear / keys / values / free, mirrored in a dict.
+    What get / keys / values return is consumed at once (holding it across a later put / remove is a known defect, see
+    DIRECTED_PROGRAMS).  Returns (TextProgram, expected)."""
+    out = []
+    src = []
+    lab = [0]
+    kinds = r.sample(["ss", "si", "is", "ii"], r.randint(2, 3))
+    words = ["alpha", "beta", "gamma", "k", "key7", "zz", "a", "b", "Q9", "longer_key_0123456789", ""]
+
+    def lit(v):
+        return '"%s"' % v if isinstance(v, str) else str(v)
+
+    for t in kinds:
+        KT = "string" if t[0] == "s" else "int"
+        VT = "string" if t[1] == "s" else "int"
+        body = ["    let m: HashMap<%s, %s> = (map_new)" % (KT, VT)]
+        d = {}
+
+        def newlab():
+            lab[0] += 1
+            return "H%d" % lab[0]
+
+        def show(expr_text, value, vt):
+            L = newlab()
+            if vt == "string":
+                body.append('    (println (+ "%s:" %s))' % (L, expr_text))
+                out.append("%s:%s\n" % (L, value))
+            else:
+                body.append('    (print "%s:")' % L)
+                body.append("    (println %s)" % expr_text)
+                out.append("%s:%s\n" % (L, ("true" if value else "false") if isinstance(value, bool) else value))
+
+        def rkey(present=False):
+            if present and d and r.random() < 0.8:
+                return r.choice(list(d))
+            return r.choice(words) if KT == "string" else r.choice([0, 1, -1, 7, 16, 32, 48, 1000, -50, 3])
+
+        def rval():
+            return r.choice(["one", "two", "", "v", "a longer value 0123456789"]) if VT == "string" else r.randint(-99, 99)
+
+        def size_line():
+            show("(map_size m)", len(d), "int")
+
+        def keys_line():
+            n = lab[0]
+            if r.random() < 0.5:
+                body.append("    let ks%d: array<%s> = (map_keys m)" % (n, KT))
+                body.append("    let mut acc%d: int = 0" % n)
+                body.append("    for i%d in (range 0 (array_length ks%d)) {" % (n, n))
+                body.append("        set acc%d (+ acc%d %s)" % (n, n, ("(str_length (at ks%d i%d))" if KT == "string" else "(at ks%d i%d)") % (n, n)))
+                body.append("    }")
+                show("acc%d" % n, sum(len(k) if KT == "string" else k for k in d), "int")
+            else:
+                body.append("    let vs%d: array<%s> = (map_values m)" % (n, VT))
+                show("(array_length vs%d)" % n, len(d), "int")
+
+        # a loop that carries the table across one or two growth boundaries, then removes every third key
+        n_loop = r.choice([5, 12, 13, 23, 24, 46, 100])
+        c = "c%d" % lab[0]
+        body.append("    let mut %s: int = 0" % c)
+        body.append("    while (< %s %d) {" % (c, n_loop))
+        kexpr = '(+ "k" (int_to_string %s))' % c if KT == "string" else "(* %s 3)" % c
+        vexpr = '(+ "v" (int_to_string (* %s %s)))' % (c, c) if VT == "string" else "(- %s 7)" % c
+        body.append("        (map_put m %s %s)" % (kexpr, vexpr))
+        body.append("        set %s (+ %s 1)" % (c, c))
+        body.append("    }")
+        for i in range(n_loop):
+            d[("k%d" % i) if KT == "string" else i * 3] = ("v%d" % (i * i)) if VT == "string" else i - 7
+        size_line()
+        body.append("    set %s 0" % c)
+        body.append("    while (< %s %d) {" % (c, n_loop))
+        body.append("        (map_remove m %s)" % kexpr)
+        body.append("        set %s (+ %s 3)" % (c, c))
+        body.append("    }")
+        for i in range(0, n_loop, 3):
+            d.pop(("k%d" % i) if KT == "string" else i * 3, None)
+        size_line()
+        for _ in range(r.randint(10, 30)):
+            k = r.random()
+            if k < 0.3:
+                key, v = rkey(r.random() < 0.3), rval()
+                d[key] = v
+                body.append("    (map_put m %s %s)" % (lit(key), lit(v)))
+            elif k < 0.5:
+                key = rkey(True)
+                show("(map_get m %s)" % lit(key), d.get(key, "" if VT == "string" else 0), VT)
+            elif k < 0.6:
+                key = rkey(r.random() < 0.5)
+                show("(map_has m %s)" % lit(key), key in d, "bool")
+            elif k < 0.78:
+                key = rkey(True)
+                d.pop(key, None)
+                body.append("    (map_remove m %s)" % lit(key))
+            elif k < 0.86:
+                size_line()
+            elif k < 0.92:
+                keys_line()
+            else:
+                d.clear()
+                body.append("    (map_clear m)")
+                if r.random() < 0.7:
+                    key, v = rkey(), rval()
+                    d[key] = v
+                    body.append("    (map_put m %s %s)" % (lit(key), lit(v)))
+        size_line()
+        if r.random() < 0.8:
+            body.append("    (map_free m)")
+        body.append("    return 0")
+        src.append("fn t7_%s() -> int {\n%s\n}\nshadow t7_%s { assert true }\n" % (t, "\n".join(body), t))
+    main = ["fn main() -> int {"]
+    for t in kinds:
+        main.append("    let r_%s: int = (t7_%s)" % (t, t))
+    main.append('    (println "hashmaps done")')
+    main.append("    return 0\n}\nshadow main { assert true }\n")
+    out.append("hashmaps done\n")
+    text = "".join(src) + "\n".join(main)
+    exp = {"stdout": "".join(out), "exit": 0, "steps": 0, "builtins": ["map_new", "map_put", "map_get", "map_has", "map_remove", "map_size", "map_clear",
+                                                                         "map_keys", "map_values", "map_free"]}
+    return TextProgram(text, {"tpl.hashmap"} | {"hashmap." + t for t in kinds}), exp
+
+
+TEMPLATES = [tpl_strings_in_arrays, tpl_struct_arrays, tpl_union_payload, tpl_recursion_heap, tpl_array_ops, tpl_string_growth,
+             tpl_hashmap, tpl_hashmap]
 
 
 def make_template(args):
@@ -438,6 +572,8 @@ def make_template(args):
     fn = TEMPLATES[idx % len(TEMPLATES)]
     try:
         prog = fn(r)
+        if isinstance(prog, tuple):
+            return prog                  # text templates come with their expected output
         exp = evaluate20(prog)
     except (KeyError, TypeError, IndexError, ValueError):
         return None
@@ -450,6 +586,12 @@ def make_template(args):
 DIRECTED_PROGRAMS = {
     "substring_len_max": ('fn main() -> int {\n    (println (str_substring "hello" 1 9223372036854775807))\n    (println "end")\n    return 0\n}\nshadow main { assert true }\n',
                           "ello\nend\n", 0),
+    # strings are values: what map_get returned must survive a later put of the same key
+    "map_get_then_put": ('fn main() -> int {\n    let m: HashMap<string, string> = (map_new)\n    (map_put m "a" "one")\n    let v: string = (map_get m "a")\n'
+                         '    (map_put m "a" "two")\n    (println v)\n    (println (map_get m "a"))\n    return 0\n}\nshadow main { assert true }\n', "one\ntwo\n", 0),
+    # ... and the array map_keys returned must survive a later remove
+    "map_keys_then_remove": ('fn main() -> int {\n    let m: HashMap<string, int> = (map_new)\n    (map_put m "a" 1)\n    let ks: array<string> = (map_keys m)\n'
+                             '    (map_remove m "a")\n    (println (at ks 0))\n    (println (map_size m))\n    return 0\n}\nshadow main { assert true }\n', "a\n0\n", 0),
 }
 
 
